@@ -93,17 +93,17 @@ SubmitEntries(S, side, rows, k) ==
   IF k > Len(rows) THEN S
   ELSE LET r == rows[k]
            S1 == IF Near(r[2], S.cur)
-                 THEN (IF side = "buy" THEN BuyAtMarket(S, r[1], "none", "entry", rows)
-                       ELSE SellAtMarket(S, r[1], "none", "entry", rows))
+                 THEN (IF side = "buy" THEN BuyAtMarket(S, SAbs(r[1]), "none", "entry", rows)
+                       ELSE SellAtMarket(S, SAbs(r[1]), "none", "entry", rows))
                  ELSE IF (side = "buy" /\ r[2] > S.cur) \/ (side = "sell" /\ r[2] < S.cur)
-                 THEN Submit(S, side, "STOP", r[1], r[2], FALSE, "none", "entry", rows)       \* start_profit_at
-                 ELSE Submit(S, side, "LIMIT", r[1], r[2], FALSE, "none", "entry", rows)      \* buy_at / sell_at
+                 THEN Submit(S, side, "STOP", SAbs(r[1]), r[2], FALSE, "none", "entry", rows)       \* start_profit_at
+                 ELSE Submit(S, side, "LIMIT", SAbs(r[1]), r[2], FALSE, "none", "entry", rows)      \* buy_at / sell_at
        IN SubmitEntries(S1, side, rows, k + 1)
 
 RECURSIVE SubmitExits(_, _, _, _)
 SubmitExits(S, via, rows, k) ==
   IF k > Len(rows) \/ S.q = 0 THEN S
-  ELSE SubmitExits(ReduceAt(S, rows[k][1], rows[k][2], via, IF via = "stop-loss" THEN "sl" ELSE "tp", rows), via, rows, k + 1)
+  ELSE SubmitExits(ReduceAt(S, SAbs(rows[k][1]), rows[k][2], via, IF via = "stop-loss" THEN "sl" ELSE "tp", rows), via, rows, k + 1)
 
 CancelWhere(S, T(_)) ==
   [S EXCEPT !.ords = [i \in DOMAIN @ |-> IF @[i].st = "active" /\ T(@[i]) THEN [@[i] EXCEPT !.st = "canceled"] ELSE @[i]]]
@@ -175,8 +175,8 @@ ApplyEdit(S0, ed) ==
          [] ed[1] = "sl" -> [S EXCEPT !.d.sl = ed[2]]
          [] ed[1] = "tp" -> [S EXCEPT !.d.tp = ed[2]]
          [] ed[1] = "both" -> [S EXCEPT !.d.sl = ed[2], !.d.tp = Decl(Rows1(SAbs(S.q), S.cur + 6 * Sg(S)))]
-         [] ed[1] = "liq" -> IF PnlPositive(S) THEN [S EXCEPT !.d.tp = Decl(Rows1(SAbs(S.q), S.cur))]      \* liquidate()
-                             ELSE [S EXCEPT !.d.sl = Decl(Rows1(SAbs(S.q), S.cur))]
+         [] ed[1] = "liq" -> IF PnlPositive(S) THEN [S EXCEPT !.d.tp = Decl(Rows1(S.q, S.cur))]      \* liquidate(): (position.qty, price)
+                             ELSE [S EXCEPT !.d.sl = Decl(Rows1(S.q, S.cur))]             \* - the quantity is SIGNED
 
 \* ---------------------------------------------------------------- fills
 \* ClosedTrade.qty / entry_price / exit_price / pnl from the recorded rows (fee 0)
@@ -235,9 +235,9 @@ OpenExits(S, via, rows, k) ==
                     THEN (Long(S) /\ RGe(RI(r[2]), S.en)) \/ (Short(S) /\ RLe(RI(r[2]), S.en))
                     ELSE (Long(S) /\ RLe(RI(r[2]), S.en)) \/ (Short(S) /\ RGe(RI(r[2]), S.en))
            S1 == IF wrong
-                 THEN (IF RepairedReplacement THEN Submit(S, ClosingSide(S.q), "MARKET", r[1], S.cur, TRUE, via, kind, rows)
-                       ELSE IF Long(S) THEN SellAtMarket(S, r[1], via, kind, rows) ELSE BuyAtMarket(S, r[1], via, kind, rows))
-                 ELSE ReduceAt(S, r[1], r[2], via, kind, rows)
+                 THEN (IF RepairedReplacement THEN Submit(S, ClosingSide(S.q), "MARKET", SAbs(r[1]), S.cur, TRUE, via, kind, rows)
+                       ELSE IF Long(S) THEN SellAtMarket(S, SAbs(r[1]), via, kind, rows) ELSE BuyAtMarket(S, SAbs(r[1]), via, kind, rows))
+                 ELSE ReduceAt(S, SAbs(r[1]), r[2], via, kind, rows)
        IN OpenExits(S1, via, rows, k + 1)
 
 \* Strategy._on_updated_position(order): effect from previous_qty / qty, hook, user code (menu entry k), detection
@@ -376,12 +376,12 @@ Bound == Len(st.ords) <= MaxOrd
 \* ---- C10: every submission of the last action
 RowsHave(rows, P(_)) == \E j \in DOMAIN rows : P(rows[j])
 IsReplacement(s) == /\ s.o.type = "MARKET" /\ s.inOpen
-                    /\ RowsHave(s.rows, LAMBDA r : r[1] = s.o.q) /\ ~RowsHave(s.rows, LAMBDA r : RowOf(s.o, r))
+                    /\ RowsHave(s.rows, LAMBDA r : SAbs(r[1]) = s.o.q) /\ ~RowsHave(s.rows, LAMBDA r : RowOf(s.o, r))
 SubOK(s) ==
   LET o == s.o IN
   CASE s.kind = "entry" ->
          /\ ~o.ro /\ o.via = "none"
-         /\ RowsHave(s.rows, LAMBDA r : /\ r[1] = o.q /\ (o.type = "MARKET" \/ r[2] = o.p)
+         /\ RowsHave(s.rows, LAMBDA r : /\ SAbs(r[1]) = o.q /\ (o.type = "MARKET" \/ r[2] = o.p)
                                         /\ (Knife(r[2], s.cur) \/ o.type = EntryType(o.side, r[2], s.cur)))
     [] s.kind = "close" ->
          o.ro /\ s.pq # 0 /\ o.side = ClosingSide(s.pq) /\ (Knife(o.p, s.cur) \/ o.type = ExitType(PosSide(s.pq), o.p, s.cur))
